@@ -93,6 +93,78 @@ var truePreds = map[string]typeSet{
 	"lisp/lisplib/libschema.isValidator": ts("LFun"),
 }
 
+// nilResultTypes: ce calls a checking helper of the module with an *LVal argument x; the
+// result is the set of LTypes of x for which the helper can return nil (decided by
+// assuming each type in turn).  "" when no argument's types are constrained.
+func (a *ownAnalysis) nilResultTypes(ce *ast.CallExpr) (string, typeSet) {
+	h := originOf(Callee(a.info, ce))
+	if h == nil {
+		return "", nil
+	}
+	hd := a.c.declOf[h]
+	if hd == nil || hd.Body == nil {
+		return "", nil
+	}
+	typeFld := a.c.LookupField("lisp.LVal.Type")
+	lp := a.c.Pkg("lisp")
+	if typeFld == nil || lp == nil {
+		return "", nil
+	}
+	hu := FuncUnit{h, hd, a.c.pkgOf[hd]}
+	hps := paramObjs(hu)
+	var all []string
+	for _, nm := range lp.Types.Scope().Names() {
+		if k, ok := lp.Types.Scope().Lookup(nm).(*types.Const); ok {
+			if n, ok := types.Unalias(k.Type()).(*types.Named); ok && n.Obj().Name() == "LType" {
+				all = append(all, nm)
+			}
+		}
+	}
+	for i, arg := range ce.Args {
+		if i >= len(hps) || !isLValPtr(a.c, hps[i].Type()) {
+			continue
+		}
+		key := a.resolvedKey(arg, 0)
+		if key == "" {
+			continue
+		}
+		canNil := func(k string) bool {
+			tf := &typeFlow{c: a.c, typeFld: typeFld, k: k, consts: map[string]bool{}, memo: map[string]flowSummary{}}
+			_, reach, _ := tf.reach(hu, nil, hps[i], nil, 1)
+			hinfo := hu.Pkg.TypesInfo
+			for b := range reach {
+				for _, n := range b.Nodes {
+					if rs, ok := n.(*ast.ReturnStmt); ok && len(rs.Results) >= 1 {
+						last := rs.Results[len(rs.Results)-1]
+						if isNilIdent(hinfo, last) {
+							return true
+						}
+						if _, isCall := ast.Unparen(last).(*ast.CallExpr); !isCall {
+							if _, isAddr := ast.Unparen(last).(*ast.UnaryExpr); !isAddr {
+								return true // an identifier or other expression: may be nil
+							}
+						}
+					}
+				}
+			}
+			return false
+		}
+		if canNil("") {
+			continue // a type the helper never mentions passes: no constraint on this argument
+		}
+		set := typeSet{}
+		for _, k := range all {
+			if canNil(k) {
+				set[k] = true
+			}
+		}
+		if len(set) > 0 {
+			return key, set
+		}
+	}
+	return "", nil
+}
+
 // typeFactsAt returns, per resolved access-path key, the set of LTypes the
 // value can have at node n (nil entry = unknown).
 func (a *ownAnalysis) typeFactsAt(fc *FCFG, n ast.Node, stack []ast.Node) map[string]typeSet {
@@ -144,6 +216,26 @@ func (a *ownAnalysis) typeFactsAt(fc *FCFG, n ast.Node, stack []ast.Node) map[st
 				}
 				if (be.Op == token.EQL) == at.Positive {
 					return a.resolvedKey(se.X, 0), ts(tn)
+				}
+			}
+		}
+		// `lerr == nil` with lerr := checkHelper(…, x, …): the types of x for which the helper can
+		// hand back nil, decided on the helper's flow graph under each type assumption (typeflow.go)
+		if be, ok := e.(*ast.BinaryExpr); ok && (be.Op == token.EQL || be.Op == token.NEQ) {
+			for _, pair := range [][2]ast.Expr{{be.X, be.Y}, {be.Y, be.X}} {
+				if !isNilIdent(a.info, pair[1]) || (be.Op == token.EQL) != at.Positive {
+					continue
+				}
+				d := soleDef(a.info, a.u.Decl.Body, pair[0])
+				if d == nil {
+					continue
+				}
+				ce, ok := ast.Unparen(d).(*ast.CallExpr)
+				if !ok {
+					continue
+				}
+				if key, set := a.nilResultTypes(ce); key != "" {
+					return key, set
 				}
 			}
 		}
